@@ -34,6 +34,11 @@ GSETS = [
     dict(files={"g.pg": ["import 'b.pg';\nS: b.M S | b.M;\n"],
                 "b.pg": ["import 'c.pg';\nM: 'm' c.L | c.L;\n"],
                 "c.pg": ["L: 'a';\n", "L: 'a' | 'b';\n"]}, alpha="mab"),
+    # lexical overlap: the finish flags stored in the table matter
+    dict(files={"g.pg": ["import 'b.pg';\nS: 'if' ';' | b.Name ';';\n",
+                         "import 'b.pg';\nS: 'if' ';' | b.Name ';' | ';';\n"],
+                "b.pg": ["Name: id;\nterminals\nid: /[a-z]+/;\n"]},
+         alpha="if;y", extra_probes=["iffy;", "if;", "ify;"]),
 ]
 OPTS = {
     "LR": ("lr", {}),
@@ -56,6 +61,9 @@ BUILDERS = ["LR", "LRnp", "SLR", "GLR", "GLRps", "GLRld"]
 
 
 def probes(alpha):
+    for gs in GSETS:
+        if gs["alpha"] == alpha and gs.get("extra_probes"):
+            return spaces.strings(alpha, 3) + gs["extra_probes"]
     return spaces.strings(alpha, 3) + (["n+n*n", "n+n+n", "n*n+m"]
                                        if "n" in alpha else ["abab", "aaaa"])
 
@@ -129,6 +137,7 @@ class World:
         self.files = GSETS[gset]["files"]
         self.names = sorted(self.files)
         self.alpha = GSETS[gset]["alpha"]
+        self.extra = GSETS[gset].get("extra_probes")
         self.d = tempfile.mkdtemp(prefix="pgmc-c12-")
         self.oracle_cache = {}
         self.twin_cache = {}
@@ -217,7 +226,10 @@ def events(tier):
     ev += [("build", "pglr"), ("build", "pglrps")]
     ev += [("edit", "g.pg"), ("edit", "b.pg"), ("edit", "c.pg"),
            ("touch", "g.pg"), ("touch", "b.pg"), ("touch", "c.pg"),
-           ("touch", "g.pgc"), ("delete",)]
+           ("touch", "g.pgc"), ("delete",),
+           # an incomplete cache file, however it came about (the statement
+           # lists it as a possible on-disk state): a strict prefix / empty
+           ("truncate", "half"), ("truncate", "empty")]
     ev += [("crash", o, c) for o in ("LR", "GLR")
            for c in ("half", "before-last", "unflushed-half")]
     return ev
@@ -225,9 +237,9 @@ def events(tier):
 
 def plan(tier, seed):
     if tier == "quick":
-        return dict(depth=3, gsets=[0, 1, 2], byte_stride=8, op_stride=4,
+        return dict(depth=3, gsets=[0, 1, 2, 3], byte_stride=8, op_stride=4,
                     rt_space="k3", rt_win=None)
-    return dict(depth=4, gsets=[0, 1, 2], byte_stride=1, op_stride=1,
+    return dict(depth=4, gsets=[0, 1, 2, 3], byte_stride=1, op_stride=1,
                 rt_space="k4", rt_win=None)
 
 
@@ -239,7 +251,7 @@ def units(tier, seed):
         for first in range(nev):
             out.append(dict(kind="bfs", gset=gs, first=first, depth=pl["depth"]))
         for r in (0, 1):
-            if gs == 2:
+            if gs == 2 or (gs == 3 and r == 1 and False):
                 continue
             for w in ("LR", "GLR"):
                 out.append(dict(kind="crash", gset=gs, r=r, writer=w,
@@ -312,7 +324,7 @@ def apply_event(world, judge, stats, st, writer, ev, hist):
             ev[1] not in world.files or
             (ev[0] == "edit" and len(world.files[ev[1]]) < 2)):
         return None
-    if ev[0] == "delete" and "g.pgc" not in names:
+    if ev[0] in ("delete", "truncate") and "g.pgc" not in names:
         return None
     world.materialize(st)
     touched = []
@@ -360,6 +372,14 @@ def apply_event(world, judge, stats, st, writer, ev, hist):
     elif ev[0] == "delete":
         os.remove(os.path.join(d, "g.pgc"))
         w = None
+    elif ev[0] == "truncate":
+        data = open(os.path.join(d, "g.pgc"), "rb").read()
+        cut = b"" if ev[1] == "empty" else data[:len(data) // 2]
+        if cut == data:
+            return None
+        open(os.path.join(d, "g.pgc"), "wb").write(cut)
+        touched = ["g.pgc"]
+        w = None          # nobody's complete table any more
     ns, _ = world.snapshot(v, order, touched)
     return ns, w
 
